@@ -17,6 +17,13 @@ target's children only in case / blanks / normalisation (different names: restor
 a child of the other kind of the target (nothing demanded or forbidden for that child), a Property of the target's
 name with values of another data type (first sentence only).
 
+Tree-position dimension (position_scenarios): pairs of name paths (linking Section, target) in which names are NOT distinct -
+the same name at the same depth in the other branch (/x/k/l -> /y/k/t, /s1/stim -> /s2/stim), at another depth, repeated
+along one path (a/b/a), names that are character prefixes of one another (also as siblings at the branch point); 0..2 common
+ancestors, linking Section and target 1..4 levels below the branch point (target above / beside / below, either at top level),
+absolute and relative link text, either branch first. After every clean the stored link is resolved with the own exact-name
+resolver and must designate the target object; the next finalize must give the same copies (reference-kept, refinalize-same).
+
 Clauses: copies-present (one copy per unused name, equal content, same name, not the target's own object),
 only-copies-added (exact multiset of (kind, name) of the children; every new child is one copy of a child of the target),
 target-unchanged, rest-unchanged, finalize-idempotent, finalize-returns / clean-returns, clean-restores (exact, incl. ids
@@ -1305,9 +1312,10 @@ def alphabet_paths(max_len):
 def position_scenarios(tier, seed, part):
     """(1) patterns: c common ancestors 0..2 x linking Section 1..4 levels x target 1..4 levels below the branch point
     (target above / beside / below the linking Section, depth difference 0..3, either at top level) x name pattern;
-    (2) every pair of paths of length <= L over the names a, ab, b (L = 2 quick, 3 thorough), neither a prefix of the other.
-    Path form, own children of the linking Section and the sibling order (linking branch first | target branch first) are
-    all combined in the thorough tier and rotate in the quick tier."""
+    (2) every pair of paths of length <= 2 over the names a, ab, b, neither a prefix of the other; thorough: also a sample
+    of the pairs with a path of length 3.
+    Quick: a third of the grid (1), one path form per pair; thorough: all of it in both path forms. Own children of the
+    linking Section and the sibling order (linking branch first | target branch first) are drawn per case."""
     owns = list(RESTORING) if part == 'restore' else ['none', 'other-names', 'same-name-property', 'same-name-section']
     hows = ('absolute', 'relative')
     rnd = random.Random('c12-pos-%s-%s' % (part, seed))
@@ -1317,26 +1325,27 @@ def position_scenarios(tier, seed, part):
         for c in range(3):
             for u in range(1, 5):
                 for d in range(1, 5):
-                    if tier == 'quick' and (pi + c + u + d) % 2:      # quick: half of the grid, alternating with the pattern
+                    if tier == 'quick' and (pi + c + u + d) % 3:      # quick: a third of the grid, rotating with the pattern
                         continue
                     A, B = fn(c, u, d)
                     if not is_prefix(A, B):
                         pairs.append((pname, A, B))
-    paths = alphabet_paths(2 if tier == 'quick' else 3)
-    for A in paths:
-        for B in paths:
+    short = alphabet_paths(2)
+    for A in short:
+        for B in short:
             if not is_prefix(A, B):
                 pairs.append(('alphabet', A, B))
+    if tier != 'quick':
+        # pairs with a path of length 3: a sample (the full set has about 1300 pairs)
+        paths = alphabet_paths(3)
+        longer = [(A, B) for A in paths for B in paths if max(len(A), len(B)) == 3 and not is_prefix(A, B)]
+        pairs += [('alphabet', A, B) for A, B in rnd.sample(longer, 260)]
     for pname, A, B in pairs:
         n += 1
-        if tier == 'quick':
-            if part == 'finalize' and pname != 'alphabet' and n % 3:
-                continue
+        if tier == 'quick' or (pname == 'alphabet' and max(len(A), len(B)) == 3):
             combos = [(rnd.choice(hows), rnd.choice(owns), rnd.randrange(2))]
-        elif pname == 'alphabet' and len(A) + len(B) == 6:
-            combos = [(how, owns[(n + i) % len(owns)], (n // 2 + i) % 2) for i, how in enumerate(hows)]
         else:
-            combos = [(how, own, (n + i + j) % 2) for i, how in enumerate(hows) for j, own in enumerate(owns)]
+            combos = [(how, rnd.choice(owns), rnd.randrange(2)) for how in hows]
         for how, own, target_first in combos:
             yield ({'positions': {'linking': '/' + '/'.join(A), 'target': '/' + '/'.join(B), 'target_branch_first': bool(target_first)},
                     'links': [[how, own]], 'pattern': pname},
@@ -1402,7 +1411,7 @@ def _run(part, tier, seed):
             'names: 0..2 common ancestors x linking Section 1..4 x target 1..4 levels below the branch point x name pattern '
             '(distinct | parallel branches with the same names at the same depth | same name at the deepest shared depth | '
             'names of the other branch shifted by one level | a/b/a/b along each path | names that are prefixes of one '
-            'another), and every pair of paths up to length L over the names a, ab, b'
+            'another), and every pair of paths up to length 2 (a sample of those up to length 3) over the names a, ab, b'
             % (', '.join(OWN if part == 'finalize' else RESTORING), ', '.join(NAMINGS),
                ' or named like a child of the other kind' if part == 'finalize' else ''))
     col = Col(name, rule=rule, exhaustive=False)
@@ -1421,9 +1430,10 @@ def _run(part, tier, seed):
             if tier == 'quick' and 'naming' in wit and backend == 'YAML' and n % 7:      # the slowest format less often
                 backend = BACKENDS[n % 2]
             n += 1
-            # quick tier: the tree-position cases go through save/load every third time only
-            outcome = scenario(col, name, part, doc, links, wit, backend,
-                               save_load=not (tier == 'quick' and 'positions' in wit and n % 3))
+            # quick tier: the tree-position cases go through one cycle less, and through save/load every fourth time only
+            light = tier == 'quick' and 'positions' in wit
+            outcome = scenario(col, name, part, doc, links, wit, backend, cycles=1 if light else 2,
+                               save_load=not (light and n % 4))
             col.case(cls_key=(tuple(sorted((l.how, l.own, _position(l)) for l in links)), len(links), outcome,
                               links[0].naming, links[0].origin),
                      sample=json.dumps(wit))
